@@ -327,8 +327,19 @@ def gen_pair(rng, m, delta=None):
         else:
             delta = rng.randint(-10 ** 11, 10 ** 11)
     tzh, tzm = gens.offset(rng)
-    if rng.random() < 0.25:
+    r2 = rng.random()
+    if r2 < 0.25:
         tzh, tzm = a[7], a[8]
+    elif r2 < 0.37:
+        tzh, tzm = gens.offset_near(rng, (a[7], a[8]))      # an hour / a minute away, or mirrored
+    elif r2 < 0.45:
+        # offsets at opposite ends of the legal range: the local dates of near instants lie up to nine days
+        # apart; both operands in the same representation as often as not
+        (h1, m1), (tzh, tzm) = gens.offsets_far_apart(rng)
+        a = tp_from_inst(m, inst(m, a), a[0], h1, m1, use24=rng.random() < 0.2)
+        if rng.random() < 0.6:
+            b = tp_from_inst(m, inst(m, a) + delta, a[0], tzh, tzm, use24=rng.random() < 0.3)
+            return (a, b) if rng.random() < 0.5 else (b, a)
     b = tp_from_inst(m, inst(m, a) + delta, rng.choice("cow"), tzh, tzm,
                      use24=rng.random() < 0.5)
     if rng.random() < 0.5:
